@@ -230,6 +230,17 @@ class SimFS:
         self.open_files.add(sf)
         return sf
 
+    def rename(self, real_fn, src, dst, *a, **kw):
+        """os.rename / os.replace seen by the simulated disk (atomic replace of a finished temp file)."""
+        rs, rd = self._rel(src), self._rel(dst)
+        res = real_fn(src, dst, *a, **kw)
+        if rs is not None or rd is not None:
+            self._event("rename", rs, 0)
+            self.events[-1] = self.events[-1][:3] + (rd,) + self.events[-1][4:]
+            if rd is not None:
+                self.stamp(rd)
+        return res
+
     def begin_op(self, faults):
         self.events = []
         self.faults = list(faults or [])
@@ -463,12 +474,15 @@ class World:
         kill = cfg.get("kill")
 
         so, se = Sink(), Sink()
-        old = (sys.stdout, sys.stderr, sys.argv, builtins.open, io.open)
+        old = (sys.stdout, sys.stderr, sys.argv, builtins.open, io.open, os.rename, os.replace)
         sys.stdout, sys.stderr = so, se
         if cfg.get("argv") is not None:
             sys.argv = list(cfg["argv"])
         builtins.open = fs.open
         io.open = fs.open           # pathlib and friends resolve io.open at call time
+        _ren, _rep = os.rename, os.replace
+        os.rename = lambda s_, d_, *a, **kw: fs.rename(_ren, s_, d_, *a, **kw)
+        os.replace = lambda s_, d_, *a, **kw: fs.rename(_rep, s_, d_, *a, **kw)
         _time.time = clk.time
         _time.monotonic = clk.time
         _time.perf_counter = clk.time
@@ -532,6 +546,7 @@ class World:
             fs.end_op(process_ends=bool(cfg.get("process_ends")))
             builtins.open = old[3]
             io.open = old[4]
+            os.rename, os.replace = old[5], old[6]
             sys.stdout, sys.stderr, sys.argv = old[0], old[1], old[2]
             for k, v in _REAL_TIME.items():
                 setattr(_time, k, v)
